@@ -976,6 +976,10 @@ class SymEval:
     def _bind_target(self, t, v):
         if isinstance(t, ast.Name):
             self.env[t.id] = v
+        elif isinstance(t, (ast.Tuple, ast.List)) and v[0] == "ife" and v[2][0] in ("tuple", "list") and v[3][0] in ("tuple", "list") and \
+                len(v[2][1]) == len(v[3][1]) == len(t.elts) and not any(isinstance(e, ast.Starred) for e in t.elts):
+            # a, b = (x1, y1) if c else (x2, y2): element-wise conditional expressions
+            self._bind_target(t, ("tuple", tuple(("ife", v[1], p_, q_) if p_ != q_ else p_ for p_, q_ in zip(v[2][1], v[3][1]))))
         elif isinstance(t, (ast.Tuple, ast.List)) and len(t.elts) == 2 and v[0] == "call" and v[1] == ("glob", "divmod") and len(v[2]) == 2:
             self._bind_target(t.elts[0], mk_bin("//", v[2][0], v[2][1]))
             self._bind_target(t.elts[1], mk_bin("%", v[2][0], v[2][1]))
